@@ -31,8 +31,10 @@ def run(ctx):
         nc, nr = rng.choice([(2, 2), (3, 2), (3, 3), (4, 2), (4, 3), (1, 2)])
         tables.append([[rng.choice([-6, -3, -2, -1, 0, 0, 1, 2, 3, 6]) for _ in range(nr)] for _ in range(nc)])
     procs = [1, 2, 4] if q else [1, 2, 3, 4, 8, cores]
-    progs = []
-    for p in procs:
-        progs += B.search_programs_from_tables(tables, MODES, [p], ["1", "q", "big"], rng)
-    _batch.validate(ctx, progs, f"random score tables (ties, negatives, non-monotone) x 8 modes x processes {procs}: every run must match the specification, "
-                                "hence serial = parallel", chunk=800)
+    serial = B.search_programs_from_tables(tables, MODES, [1], ["1", "q", "big"], rng)
+    _batch.validate(ctx, serial, "random score tables (ties, negatives, non-monotone) x 8 modes, serial", chunk=800)
+    par = []
+    for p in procs[1:]:
+        par += B.search_programs_from_tables(tables, MODES, [p], ["1", "q", "big"], rng)
+    _batch.validate(ctx, par, f"the same score tables x 8 modes x processes {procs[1:]}: every run must match the specification, "
+                              "hence serial = parallel", chunk=800, isolated=True)
